@@ -71,6 +71,13 @@ CHECKS = {
             "BaseException, None results) in histories that contain earlier failures and failures handled by formulas. The "
             "traceback must equal the reference's unwound chain with exact line numbers, get_error() the original exception.",
             "line numbers refer to the generated source; after-return failures are listed with line 0 as documented"),
+    "C19": ("exploration",
+            "stateful property-based testing (Hypothesis-generated registry histories) against a dict reference model plus isolation invariants over public descriptions",
+            "Histories of new_model / write+read_model / rename (with and without rename_old, onto free, taken, already-suffixed "
+            "and invalid names) / close / edits / evaluations over up to five open models, some holding references into others. "
+            "After every step the registry must map every open model's name to that model, collisions must rename the old model "
+            "to a _BAK name without overwriting, and the descriptions and held values of untouched models must be unchanged.",
+            "dict reference of the documented naming rules; closed handles are not operated on"),
 }
 
 NOT_YET = {
